@@ -39,13 +39,16 @@ type c08Case struct {
 	InitialRO bool      `json:"initial_ro"`
 	Steps     []c08Step `json:"steps"`
 	Conn      bool      `json:"conn,omitempty"` // requests travel over the record-marking connection loop
+	// Listen: the server's listener is started (NewServer + SetHandler + Listen, the documented way of serving an
+	// AbsfsNFS) before the first request; starting to listen may not change the export's policy
+	Listen bool `json:"listen,omitempty"`
 }
 
 var c08Mutating = map[uint32]bool{nfsx.ProcSetattr: true, nfsx.ProcWrite: true, nfsx.ProcCreate: true, nfsx.ProcMkdir: true, nfsx.ProcSymlink: true,
 	nfsx.ProcMknod: true, nfsx.ProcRemove: true, nfsx.ProcRmdir: true, nfsx.ProcRename: true, nfsx.ProcLink: true, nfsx.ProcCommit: true}
 
 func genC08(t *rapid.T) c08Case {
-	c := c08Case{InitialRO: rapid.Bool().Draw(t, "initial_ro"), Conn: rapid.IntRange(0, 3).Draw(t, "conn") == 0}
+	c := c08Case{InitialRO: rapid.Bool().Draw(t, "initial_ro"), Conn: rapid.IntRange(0, 3).Draw(t, "conn") == 0, Listen: rapid.IntRange(0, 2).Draw(t, "listen") == 0}
 	n := rapid.IntRange(3, 30).Draw(t, "n")
 	for i := 0; i < n; i++ {
 		st := c08Step{Kind: "req"}
@@ -146,6 +149,11 @@ func runC08(tb stat.TB, c c08Case) {
 	defer s.close()
 	s.tolerateMalformed = true
 	s.e.ViaConn = c.Conn
+	if c.Listen {
+		if err := s.e.Listen(); err != nil {
+			tb.Fatalf("harness: Listen: %v", err)
+		}
+	}
 	ro := c.InitialRO
 	nt := false
 	rwOK := 0
@@ -281,6 +289,9 @@ func runC08(tb stat.TB, c c08Case) {
 	}
 	if c.Conn {
 		ls = append(ls, "over_connection_loop")
+	}
+	if c.Listen {
+		ls = append(ls, "listener_started")
 	}
 	stat.Case(c, nt, ls...)
 }
